@@ -216,6 +216,25 @@ def run(ck):
                              [x.name for x in order], decl, rc), {"libmodes.in": pm.read_bytes(), "libshapes.in": ps.read_bytes(),
                              "cmd.txt": "interrogate_module -oc mod.cxx -module m -library l -python-native %s\n" % " ".join(x.name for x in order)}, se[-1500:])
 
+        # ---- a library that contributes only free functions (no class, no other global type) ------------------------------------------
+        dbf = realise(lay, "libutil", [], with_function=True)
+        dbf["type"] = []
+        pf = wd / "libutil.in"
+        pf.write_bytes(dbgen.enc_file(lay, dbf))
+        for order in ([pf, ps], [ps, pf], [pm, pf, ps], [pf]):
+            out = wd / "modfun.cxx"
+            if out.exists():
+                out.unlink()
+            rc, so, se = iglib.sh([str(bdir / "bin" / "interrogate_module"), "-oc", str(out), "-module", "m", "-library", "l", "-python-native"] + [str(x) for x in order], timeout=30)
+            ck.search_case("order-oracle")
+            text = out.read_text(errors="replace") if out.exists() else ""
+            decl = sorted(re.findall(r"^extern void Dtool_(\w+)_RegisterTypes\(\);", text, re.M))
+            want = sorted(x.name[:-3] for x in order)
+            if rc != 0 or decl != want:
+                ck.violation("order:functions-only-library", "files in order %s: libraries referenced %s (exit %s), expected %s; libutil contributes only a free function and must be referenced exactly once" % (
+                             [x.name for x in order], decl, rc, want), dict([(x.name, x.read_bytes()) for x in order] +
+                             [("cmd.txt", "interrogate_module -oc mod.cxx -module m -library l -python-native %s\n" % " ".join(x.name for x in order))]), se[-1500:])
+
         # ---- a database that fails to load: non-zero exit, no output file ------------------------
         for kind in ("missing", "truncated", "newer"):
             good = wd / "good.in"
@@ -231,9 +250,12 @@ def run(ck):
                 out.unlink()
             good2 = wd / "good2.in"
             good2.write_bytes(dbgen.enc_file(lay, realise(lay, "libc", [])))
-            for files_in in ([good, bad], [bad, good], [good, bad, good2], [bad, good, good2], [bad]):
+            for vi, files_in in enumerate(([good, bad], [bad, good], [good, bad, good2], [bad, good, good2], [bad], [good, bad], [bad])):
                 if out.exists():
                     out.unlink()
+                if vi >= 5:
+                    # the output path already holds the result of an earlier, successful run: a failed run must not leave it there as if it were its own
+                    iglib.sh([str(bdir / "bin" / "interrogate_module"), "-oc", str(out), "-module", "m", "-library", "l", "-python-native", str(good)], timeout=30)
                 ck.search_case("load-failure")
                 rc, so, se = iglib.sh([str(bdir / "bin" / "interrogate_module"), "-oc", str(out), "-module", "m", "-library", "l", "-python-native"] + [str(f) for f in files_in], timeout=30)
                 if rc == 0 or out.exists():
